@@ -179,11 +179,16 @@ func genHistory(g *gen.Rand) history {
 				o.S, o.T = append(o.S, s), append(o.T, t)
 			}
 			h.Ops = append(h.Ops, o)
-		case k < 12:
+		case k < 13:
 			h.Ops = append(h.Ops, hop{Kind: "compact"})
 		case k < 14:
 			h.Ops = append(h.Ops, hop{Kind: "compactooo"})
 		case k < 15:
+			if g.Bool() {
+				cur++
+				h.Ops = append(h.Ops, hop{Kind: "stale", S: []int{g.Intn(h.N)}, T: []int64{cur}})
+				break
+			}
 			o := hop{Kind: "selected"}
 			for s := 0; s < h.N; s++ {
 				if g.Bool() {
@@ -194,8 +199,8 @@ func genHistory(g *gen.Rand) history {
 				h.Ops = append(h.Ops, o)
 			}
 		case k < 16:
-			cur++
-			h.Ops = append(h.Ops, hop{Kind: "stale", S: []int{g.Intn(h.N)}, T: []int64{cur}})
+			cur += g.Range(200, 1600)
+			h.Ops = append(h.Ops, tx(g.Intn(h.N), cur))
 		case k < 17:
 			h.Ops = append(h.Ops, hop{Kind: "merge", A: int64(g.Intn(8)), B: int64(g.Intn(8))})
 		case k < 18:
@@ -1048,23 +1053,42 @@ func runCase(id int, name string, h history, g *gen.Rand, outDir string, nq int,
 			got[i][x.T] = true
 		}
 	}
-	same := len(want) == len(got)
-	for s, ts := range want {
-		if len(got[s]) != len(ts) {
-			same = false
+	// which part of the head data is missing / what is there in excess
+	missIO, missOOO, extra := false, false, false
+	isOOO := map[[2]int64]bool{}
+	for s, ts := range hN.OOO {
+		for _, t := range ts {
+			isOOO[[2]int64{int64(s), t}] = true
 		}
+	}
+	for s, ts := range want {
 		for t := range ts {
 			if !got[s][t] {
-				same = false
+				if isOOO[[2]int64{int64(s), t}] {
+					missOOO = true
+				} else {
+					missIO = true
+				}
 			}
 		}
 	}
-	if !same && fdesc.Shape == "clean" {
-		switch {
-		case cOld != cNew:
-			fdesc.Shape = "flushwal-cutoff-from-last-block"
-		case len(hN.OOO) > 0:
-			fdesc.Shape = "flushwal-omits-out-of-order-head-data"
+	for s, ts := range got {
+		for t := range ts {
+			if !want[s][t] {
+				extra = true
+			}
+		}
+	}
+	if (missIO || missOOO || extra) && fdesc.Shape == "clean" {
+		var causes []string
+		if (missIO || extra) && cOld != cNew {
+			causes = append(causes, "flushwal-cutoff-from-last-block")
+		}
+		if missOOO {
+			causes = append(causes, "flushwal-omits-out-of-order-head-data")
+		}
+		if len(causes) > 0 && !((missIO || extra) && cOld == cNew) {
+			fdesc.Shape = strings.Join(causes, "+")
 		}
 		meta.Hit("flush!=head-data:" + fdesc.Shape)
 	}
@@ -1100,7 +1124,7 @@ func main() {
 	for _, c := range corpus() {
 		run(c.Name, c.H, gen.Fork(f.Seed, id))
 	}
-	n := f.Count(30, 700)
+	n := f.Count(13, 250)
 	for i := 0; i < n; i++ {
 		g := gen.Fork(f.Seed, id)
 		run("random", genHistory(g), g)
